@@ -735,9 +735,7 @@ class Interp:
         if isinstance(v, ASparse):
             return ASparse([dict(en, sign=-en['sign']) for en in v.entries], v.shape, v.issues)
         if is_arraylike(v):
-            a = snap(v)
-            return Box(Arr(a.shape, lambda idx: -a.at(idx), a.kind, origin=lineno,
-                           segs=[_neg_arr(s) for s in a.segs] if a.segs else None))
+            return Box(A.elementwise(self.ctx, lambda x: -x, [v], kind=snap(v).kind, origin=lineno))
         if isinstance(v, AObj):
             m = self.sm.find_method(v.cls, '__neg__')
             if m:
